@@ -132,12 +132,12 @@ def near_label_programs():
 
 def s2_tasks(tier):
     from mc.props import c03
-    ts = [dict(t, kind='c03') for t in c03.s2_tasks(tier)]
+    ts = [dict(t, src='c03') for t in c03.s2_tasks(tier)]
     edge = progs.edge_instructions(tier)
     n = (len(edge) + 255) // 256
-    ts += [dict(kind='edge', lo=i * 256, hi=(i + 1) * 256) for i in range(n)]
-    ts += [dict(kind='symbolic', part=i, parts=16) for i in range(16)]
-    ts += [dict(kind='nearlabel', part=i, parts=64) for i in range(64)]
+    ts += [dict(src='edge', lo=i * 256, hi=(i + 1) * 256) for i in range(n)]
+    ts += [dict(src='symbolic', part=i, parts=16) for i in range(16)]
+    ts += [dict(src='nearlabel', part=i, parts=64) for i in range(64)]
     return ts
 
 
@@ -146,7 +146,7 @@ _EDGE = {}
 
 def s2_programs(task):
     from mc.props import c03
-    k = task['kind']
+    k = task['src']
     if k == 'c03':
         yield from c03.s2_programs(task)
     elif k == 'edge':
